@@ -48,17 +48,17 @@ def run(ctx):
     ng = gate([job(1, "lin", "spec", None, seeds[0]), job(2, "log", "det", "annulus", seeds[0], script={"ans": {"3": "E"}})])
     sink = E1Sink(rep, PID, crash_is_violation=True, cfg_class=cfg_class)
     Ds = (1, 2) if q else (1, 2, 3)
-    geos = ("lin", "log", "mixed")
+    geos = ("lin", "log", "mixed", "mixunb")
     conss = (None, "half", "ball", "slab", "annulus")
     # (a) complete product, b=0
     base = []
     for D in Ds:
         for g in geos:
-            if g == "mixed" and D == 1:
+            if g in ("mixed", "mixunb") and D == 1:
                 continue
             for m in ("det", "auto", "decl", "spec"):
                 for c in conss:
-                    if c == "slab" and g == "mixed":
+                    if c == "slab" and g in ("mixed", "mixunb"):
                         continue
                     for s in seeds:
                         base.append(job(D, g, m, c, s))
@@ -85,6 +85,9 @@ def run(ctx):
     for D in (1, 2):
         for mfe in range({1: 4, 2: 6}[D], {1: 4, 2: 6}[D] + 2 * D + 7):
             bw.append(job(D, "lin", "det", None, seeds[0], opts={"max_fun_evals": mfe, "tol_mesh": 1e-6}, base="S4"))
+    # budgets below the initial design (outside C03's precondition, but still valid problems that must run to completion)
+    bw += [job(D, "lin", m, None, seeds[0], target="sphere_in", opts={"max_fun_evals": mfe, "noise_final_samples": nfs})
+           for D in (1, 2) for m in ("det", "auto", "decl", "spec") for mfe in (1, 2, 3, 5, 10, 20, 31, 32) for nfs in ((3,) if q else (0, 1, 3, 10))]
     st = explore(bw, ["ans", "noise"], 0, sink, stats=st, name="budget-windows/b0")
     # (d) deterministic answer scripts (ties, success right before termination)
     adv = [job(D, g, "det", c, seeds[0], base=b) for D in Ds[:2] for g in ("lin", "log") for c in (None, "ball") for b in ("F", "E3")]
